@@ -51,7 +51,7 @@ CHECKS = {
                 "_NO_ROOT guard. The main set equality is stated in full, is FALSE on this tree (witnesses D7, D8, G3, G2 are "
                 "decide+kernel theorems through the whole pipeline) and is searched directly: glob() vs globmatch(REALPATH) on the real code.",
         'note': TB + "PARTIAL: the capture decomposition is executable and validated, not proved; the set equality is checked per tree/pattern, "
-                "not proved. Open known findings KF-D7, KF-D8, KF-G3, KF-G2, KF-G5..G8 and those inherited from C05.",
+                "not proved. Open known findings KF-D7, KF-D8, KF-G3, KF-G2, KF-G5, KF-G7, KF-G8 and those inherited from C05 (KF-G6 repaired).",
         'technique': 'Lean 4 side-clause theorems on a REALPATH matcher model + K5/K6 correspondence + direct two-API differential',
     },
     'C05': {
@@ -101,7 +101,10 @@ CHECKS = {
         'note': TB + "glob.iglob/glob.globmatch are parameters of the method model (walker modelled elsewhere), so "
                 "`q.match(p, REALPATH) <-> q in Path('.').rglob(p)` is stated and compared on every entry of every tree, not "
                 "proved; pathlib's own normalisation (str, joinpath, ==, is_dir) is an assumption (hN), sampled; host is "
-                "POSIX (WindowsPath cannot be instantiated; the 'nt' branch is reached by presenting os.name='nt').",
+                "POSIX (WindowsPath cannot be instantiated; the 'nt' branch is reached by presenting os.name='nt'). The walker halves "
+                "of KF-PARTPREFIX / KF-NEWLINE (per-part regexes compiled with _EXTMATCHBASE still set) are repaired (G6; "
+                "C16walk.PARTPREFIX_NEWLINE_walker_fixed_witness on the walker model of C04/C05); their match() halves stay open "
+                "(C16walk.PARTPREFIX_NEWLINE_match_witness).",
         'technique': 'Lean 4 theorems on bit-level flag words + method model with glob as parameter; K8 correspondence; '
                      'public-API differential on generated real trees',
     },
@@ -291,7 +294,8 @@ CHECKS['C03'].update({
 CHECKS['C05'].update({
     'text': "Theorems (Lean): C05_partial_split — for EVERY pattern string and flag word, the parts `_GlobSplit` produces (model globSplit) satisfy "
             "the shape facts the walker theorem needs (globSplit_WFParts / _drive / _litText; also: no '/' inside a literal part, adjacent globstars "
-            "only as the D6 base-part shape, non-empty parts), and for those parts the walker model returns exactly the paths the inductive "
+            "only as the D6 base-part shape, non-empty parts; split_base_only — MATCHBASE / _EXTMATCHBASE change nothing in the split but the "
+            "base part in front: same parts, same compiled regexes as under the flags with both bits cleared, the G6 repair), and for those parts the walker model returns exactly the paths the inductive "
             "specification Denotes — for every tree, under hypotheses that exclude exactly the recorded defects (a literal first name followed by further parts names a "
             "directory, D17; the SegAgree hypothesis — re.match vs full match, D14 — is a theorem since the D14 repair, segAgree_all, and the "
             "C05_main_* corollaries are stated without it), no FOLLOW, fuel above the tree height. `**` = Below "
@@ -406,7 +410,9 @@ CHECKS['C04'].update({
             "known findings attributed by call-site signature.",
     'note': TB + "PARTIAL: that runCap returns Python's FIRST match (priority order) is validated by K6, not proved — with several `**` groups the "
             "split is assumed; later groups are tested under the base the first one left (defect G3). Open known findings KF-D7, D8, G2, G3, "
-            "G5-G8, D17, D5, D6, D3 (D14, D16 repaired).",
+            "G5, G7, G8, D17, D5, D6, D3 (D14, D16 repaired; G6 — MATCHBASE leaking into the walker's per-part regexes — repaired: "
+            "G6_fixed_witness, and for all strings C05.split_base_only; what is left under MATCHBASE is globmatch's own `**/` prefix, "
+            "KF-G5 / KF-D3: G5_D3_matchbase_witness).",
     'technique': "Lean 4 soundness/completeness proof of the capture matcher w.r.t. the declarative regex semantics + characterisation of the "
                  "match model + side-clause theorems; exact-sequence correspondence and direct glob-vs-globmatch search",
 })
